@@ -57,17 +57,18 @@ Print Assumptions C02_common_type_is_c11.
 (* ------------------------------------------------------------------ the general theorem *)
 From RZ.proofs Require Import ExprCorrect.
 
-(* REPAIRED model: for every side-effect-free integer expression over declared locals and literals
-   built from casts, ~ - !, + - * & | ^ << >>, the six comparisons, && || and ?: (non-literal
+(* REPAIRED model: for every side-effect-free integer expression over declared locals, literals, register
+   operands (sources, read-write, destinations read back, pairs, .new) and immediates, built from casts, ~ - !, + - * & | ^ << >>, the six comparisons, && || and ?: (non-literal
    condition), of ANY depth, and ALL values of the locals: the lowering is accepted, the IL term
    always evaluates (to a value of the sort its type says), and whenever C11 defines a value the IL
    value is that value and the model's result type is the C type. *)
 Theorem C02_operators_correct_repaired :
-  forall (cfg : config) (rw : regwidth) (E : cenv) (csub : csubs) xi V e st,
-  cfg_fx cfg = all_fixes -> cfg_params cfg = [] -> st_vars st = V -> pfrag V e ->
-  exists pv st', lower_expr cfg e st = OK (IPure pv, st') /\ st_same st st' /\
-    forall cs ms, rel V cs ms ->
-      exists ilv, eval rw ms [] (pv_term pv) = Some ilv /\ shape_pv pv ilv /\
+  forall (cfg : config) (rw : regwidth) (IM : string -> bool) (E : cenv) (csub : csubs) xi V e st,
+  cfg_fx cfg = all_fixes -> cfg_params cfg = [] -> lst_ok IM V st -> pfrag rw IM V e ->
+  exists pv st', lower_expr cfg e st = OK (IPure pv, st') /\ st_ext st st' /\ lst_ok IM V st' /\
+    forall R rem, regs_le (st_regs st') R -> norem rem ->
+    forall cs ms, rel IM E V cs ms -> imms_done IM (st_imms st') ms ->
+      exists ilv, eval rw ms [] (fin_pure R rem (pv_term pv)) = Some ilv /\ shape_pv pv ilv /\
         forall fuel cs' cv, ceval E csub xi fuel cs e = Some (cs', cv) -> cs' = cs /\ agrees pv cv ilv.
 Proof. exact expr_correct_unconditional. Qed.
 Print Assumptions C02_operators_correct_repaired.
@@ -75,15 +76,16 @@ Print Assumptions C02_operators_correct_repaired.
 (* FAITHFUL model (the one tied to the code by K2), under the decidable guard "the translation of e
    does not depend on the repair switches" *)
 Theorem C02_operators_correct_partial :
-  forall (cfg : config) (rw : regwidth) (E : cenv) (csub : csubs) xi V e st,
-  cfg_params cfg = [] -> st_vars st = V -> pfrag V e ->
+  forall (cfg : config) (rw : regwidth) (IM : string -> bool) (E : cenv) (csub : csubs) xi V e st,
+  cfg_params cfg = [] -> lst_ok IM V st -> pfrag rw IM V e ->
   lower_expr cfg e st = lower_expr (with_fx all_fixes cfg) e st ->
-  exists pv st', lower_expr cfg e st = OK (IPure pv, st') /\ st_same st st' /\
-    forall cs ms, rel V cs ms ->
-      exists ilv, eval rw ms [] (pv_term pv) = Some ilv /\ shape_pv pv ilv /\
+  exists pv st', lower_expr cfg e st = OK (IPure pv, st') /\ st_ext st st' /\ lst_ok IM V st' /\
+    forall R rem, regs_le (st_regs st') R -> norem rem ->
+    forall cs ms, rel IM E V cs ms -> imms_done IM (st_imms st') ms ->
+      exists ilv, eval rw ms [] (fin_pure R rem (pv_term pv)) = Some ilv /\ shape_pv pv ilv /\
         forall fuel cs' cv, ceval E csub xi fuel cs e = Some (cs', cv) -> cs' = cs /\ agrees pv cv ilv.
 Proof.
-  intros cfg rw E csub xi V e st Hp HV Hf Heq. rewrite Heq.
-  apply (expr_correct_unconditional (with_fx all_fixes cfg) rw E csub xi V e st); auto.
+  intros cfg rw IM E csub xi V e st Hp HV Hf Heq. rewrite Heq.
+  apply (expr_correct_unconditional (with_fx all_fixes cfg) rw IM E csub xi V e st); auto.
 Qed.
 Print Assumptions C02_operators_correct_partial.
